@@ -49,6 +49,11 @@ def run(ctx):
     if mp:
         ms = mp.calls("re:^bb8::api::Builder::max_size$")
         r1.check(bool(ms) and const_int(ms[0].args[1]) is not None, "mirror:max_size-const", "mirror pools have a constant max_size (%s)" % (ms and const_int(ms[0].args[1])), "mirror pool max_size is not a constant")
+    # connections that bypass max_size
+    byp = sorted({c.where() for c in F.all_calls("re:^bb8::api::Pool::(dedicated_connection|add|get_owned)$")})
+    r1.check(not byp, "no-unbounded-connections", "no bb8 dedicated_connection()/add()/get_owned(): every pooled server connection is created by bb8 under max_size", "server connections are created outside bb8's max_size accounting: %s" % byp[:2])
+    direct = sorted({c.body.name for c in F.all_calls("re:ManageConnection>::connect$", "pgcat::server::Server::startup")} - {"<pgcat::pool::ServerPool as bb8::api::ManageConnection>::connect::{closure#0}", "pgcat::server::Server::exec_simple_query::{closure#0}"})
+    r1.check(not direct, "connect-only-via-bb8", "Server::startup is called only by ServerPool::connect (bb8) and the out-of-band auth query", "server connections are opened directly in %s" % direct)
     # ---------------- R2 guards do not escape
     r2 = ctx.rule("C04-R2", "a checked-out connection (PooledConnection) lives only in locals of the checkout path: no struct field, static, spawned task or forget can hold it", floor=4)
     bad = []
